@@ -14,7 +14,7 @@ def date(c, r):
     return {
         "ok": r.choice(["2025-01-01T10:30:00Z", "1999-12-31T23:59:59Z", "2020-07-13T05:46:45Z"]),
         "leap_ok": "2024-02-29T00:00:00Z",
-        "nonstr": r.choice([20250101, None, ["2025-01-01T10:30:00Z"], 1.5, True]),
+        "nonstr": r.choice([20250101, ["2025-01-01T10:30:00Z"], 1.5, True, {"date": "2025-01-01T10:30:00Z"}]), "null": None,
         "noZ": "2025-01-01T10:30:00", "noT": "2025-01-01 10:30:00Z", "trailing": r.choice(["2025-01-01T10:30:00Z ", "2025-01-01T10:30:00Zx", "2025-01-01T10:30:00Z\n2"]),
         "wrongsep": r.choice(["2025/01/01T10:30:00Z", "2025-01-01T10.30.00Z"]), "missing_field": r.choice(["2025-01-01T10:30Z", "2025-01T10:30:00Z"]),
         "extra_field": r.choice(["2025-01-01T10:30:00:00Z", "2025-01-01-01T10:30:00Z", "2025-01-01T10:30:00.5Z", "2025-01-01T10:30:00+00:00Z"]),
